@@ -140,7 +140,7 @@ def eval_case(case):
         return eval_asym(case)
     role = case['role']
     has_marker, vs, exposed = reference(case)
-    spec = {'banner': 'SSH-2.0-OpenSSH_9.3', 'kex': case['kex'], 'key': ['ssh-ed25519'], 'enc': case['enc'], 'mac': case['mac']}
+    spec = {'banner': case.get('banner', 'SSH-2.0-OpenSSH_9.3'), 'kex': case['kex'], 'key': ['ssh-ed25519'], 'enc': case['enc'], 'mac': case['mac']}
     context = case.get('context', 'plain')
     if context == 'gex2048':
         spec.update(moduli=[], gex_style='openssh')      # every group-exchange request is answered with the 2048-bit fallback group
@@ -210,7 +210,7 @@ def eval_case(case):
         if badd:
             fails.append(['terrapin-class-algorithm-recommended-for-addition', '%s %s: %r' % (rend, role, badd)])
     nt = exposed or (has_marker and bool(vs))
-    cl = ['role:' + role, 'marker:' + case['marker'], 'exposed' if exposed else ('advisory' if has_marker and vs else 'clean'), 'unknown-names' if case['unknown'] else 'db-names', 'context:' + context]
+    cl = ['role:' + role, 'marker:' + case['marker'], 'exposed' if exposed else ('advisory' if has_marker and vs else 'clean'), 'unknown-names' if case['unknown'] else 'db-names', 'context:' + context] + (['banner:' + case['banner'].split('-', 2)[2].split('_')[0]] if case.get('banner') else [])
     return mkres(case, nt=nt, classes=cl, fails=fails)
 
 
@@ -279,6 +279,13 @@ def run(ctx):
         for role in ('server', 'client'):
             for marker in ('none', 'own'):
                 cases.append({'role': role, 'marker': marker, 'kex': ['curve25519-sha256'] + ([MS if role == 'server' else MC] if marker == 'own' else []), 'enc': [c, 'aes128-ctr'], 'mac': [e, 'hmac-sha2-256'], 'unknown': False, 'shape': ['every-member', c]})
+    # what the peer says it is must not matter to the rule (recommendations exist for the recognised, versioned products)
+    BANNERS = ['SSH-2.0-dropbear_2022.83', 'SSH-2.0-libssh_0.10.4', 'SSH-2.0-PuTTY_Release_0.78', 'SSH-2.0-OpenSSH_7.4', 'SSH-2.0-x', 'SSH-2.0-OpenSSH_for_Windows_8.1', 'SSH-1.99-Cisco-1.25', 'SSH-2.0-dropbear_2019.78']
+    extra = []
+    for i, c in enumerate(cases):
+        if c.get('kind') != 'asym' and c.get('context', 'plain') == 'plain' and i % (4 if ctx.quick else 1) == ctx.seed % (4 if ctx.quick else 1):
+            extra.append(dict(c, banner=BANNERS[(i // 4) % len(BANNERS)]))
+    cases += extra
     seen, uniq = set(), []
     for c in cases:
         k = json.dumps(c, sort_keys=True)
